@@ -187,3 +187,6 @@ func vTableHarness(li int) {
 	vrt.Assert(r.Close() == nil, "table/close-no-error")
 	vrt.Reach("table/end")
 }
+
+// VEnv is the exported environment set-up for harnesses of other packages that write or read tables.
+func VEnv() *vrt.FS { return vEnv() }
